@@ -44,6 +44,6 @@ manifest = dict(
                   kind_free_text='Coq 8.16 development (model + theorems), extracted evaluator, Rust driver over a scratch copy of the macro sources')],
     checks=checks,
     not_applicable=na,
-    notes='fix: commits in /repo repaired five genuine defects, five more are recorded as known findings (known_findings.json, DESIGN.md section 10.4). DESIGN.md section 10 describes the machinery as built.')
+    notes='fix: commits in /repo repaired six genuine defects, five more are recorded as known findings (known_findings.json, DESIGN.md section 10.4). DESIGN.md section 10 describes the machinery as built.')
 json.dump(manifest, open(os.path.join(VERIF, 'MANIFEST.json'), 'w'), indent=1)
 print('MANIFEST.json written: %d checks, %d not claimed' % (len(checks), len(na)))
